@@ -369,3 +369,23 @@ Theorem C13_F10_pinned_refuted :
   v_query (view_tp true (w10_req "a=1;b=2")) = "a=1;b=2"%string.
 Proof. exact F10_refuted. Qed.
 Print Assumptions C13_F10_pinned_refuted.
+
+(** ------------------------------------------------------------------ over time: requests in flight together *)
+(** [flight]: the requests being processed, each with the cache of its own context; an operation is
+    "the pipeline of request i reads the body".  Whatever other requests are in flight and in whatever
+    order the pipelines read, a read of request i's body returns the decoding of request i's own body
+    ([bodyf] = the body accessor of an entry point) *)
+Theorem C13_body_reads_stable : forall bodyf ops st,
+  flight_ok bodyf st ->
+  Forall (fun iv => snd iv = option_map bodyf (nth_error (map fst st) (fst iv))) (run_reads bodyf ops st).
+Proof. exact body_reads_stable. Qed.
+Print Assumptions C13_body_reads_stable.
+
+(** ... and the HTTP entry points and the Envoy entry point return the same values for every sequence
+    of reads (outside the body guards F7/F9 as far as they are open in [fx]) *)
+Theorem C13_body_reads_agree : forall decode fx ops (st : flight),
+  Forall (fun L => wf_lreqb L = true /\ guard_query decode fx SOff [] L QBody = false) (map fst st) ->
+  run_reads (fun L => a_body (acc_http decode L)) ops st =
+  run_reads (fun L => a_body (acc_envoy decode fx (mk_envoy L))) ops st.
+Proof. exact body_reads_agree. Qed.
+Print Assumptions C13_body_reads_agree.
